@@ -30,7 +30,13 @@ except ImportError:
 import busio  # type:ignore[import]
 from digitalio import DigitalInOut  # type:ignore[import]
 from ..rf24 import RF24, address_repr
-from .structs import RF24NetworkFrame, FrameQueue, FrameQueueFrag, is_address_valid
+from .structs import (
+    RF24NetworkFrame,
+    RF24NetworkHeader,
+    FrameQueue,
+    FrameQueueFrag,
+    is_address_valid,
+)
 from .constants import (
     MAX_FRAG_SIZE,
     MSG_FRAG_FIRST,
@@ -468,7 +474,8 @@ class NetworkMixin(RadioMixin):
         if not self._validate_msg_len(len(message)):
             message = message[:MAX_FRAG_SIZE]
         level = self._net_lvl if level is None else min(4, max(level, 0))
-        self.frame_buf.header.to_node = NETWORK_MULTICAST_ADDR
+        # a new message gets a new frame ID (the buffered header is that of the last frame handled)
+        self.frame_buf.header = RF24NetworkHeader(NETWORK_MULTICAST_ADDR)
         self.frame_buf.header.from_node = self._addr
         message_type = (
             message_type if not isinstance(message_type, str) else ord(message_type[0])
